@@ -4,7 +4,10 @@
 // Workflow). The search runs on a small validity MODEL (one per builder, written from the property
 // statement); every model transition (state, call) is validated on the real implementation by replaying
 // the shortest call path to the state on a FRESH builder instance plus the one call (live builders cannot
-// be cloned), several times (determinism clause). See README-style comments on the oracles in judge().
+// be cloned), several times (determinism clause). The oracle clauses are documented at judge().
+//
+// Development aids (replay mode): C20_DEBUG=1 prints every step's error text and probe results and the stack
+// of a panic; C20_PROBE_ALL=1 also probes runnables of constructions the model rejects.
 package main
 
 import (
@@ -905,7 +908,9 @@ func main() {
 		"state handler without state, invalid compile options, sticky first error, compiled flag). Every model transition is replayed on the real builder (fresh instance, >=3 attempts). " +
 		"Oracle: no panic; rejected iff ill-formed (an ill-formed Add* may be accepted if every later Compile rejects); after the first rejection every later call fails; " +
 		"identical accept/reject vector and error texts on every attempt; after a successful Compile every Add* fails and the first runnable answers a probe input " +
-		"(Invoke and Stream) identically after every later Add*/Compile/compile-as-sub-graph attempt; a later Compile of the unmodified construction yields an equivalent runnable."
+		"(Invoke and Stream) identically after every later Add*/Compile/compile-as-sub-graph attempt; a later Compile of the unmodified construction yields an equivalent runnable. " +
+		"Where a Compile is accepted after a rejected one (first error not sticky), its runnable is also compared with the same calls made on a fresh builder without the rejected Compile " +
+		"(class rejected-compile-leaves-builder-inconsistent). Chain/Workflow models keep following Append*/Add* calls after a rejected Compile (those calls have no error result)."
 	e := &engine{c: c, attempts: 3, sigSeen: map[string]int{}}
 	if v := c.LoadReplay(); v != nil {
 		replay(c, e, v)
